@@ -76,7 +76,7 @@ class C20(Property):
         "takeAcc_prefix", "collectAcc_eq_collect", "eventsOf_eq_concat",
         "repeats_all_present", "head_form", "repeat_form", "last_tick_form", "tail_form",
         "same_ticks_every_span", "ticks_mirrored_on_odd_spans", "ticks_respect_min_distance",
-        "ticks_at_multiples", "ticks_respect_min_distance_strict", "ticks_chronological", "ticks_fuel_suffices",
+        "ticks_at_multiples", "ticks_respect_min_distance_strict", "ticks_chronological", "ticks_fuel_suffices", "last_tick_formula",
         "rat_laws",
     ]
     partial_theorems = {
@@ -86,6 +86,9 @@ class C20(Property):
                                              "states the guard exactly as the code tests it and holds for IEEE",
         "ticks_chronological": "law-dependent: strict order in exact arithmetic for positive tick distance, length and span duration; IEEE rounding can "
                                "make neighbouring tick times equal (the implementation-level oracle checks non-decreasing)",
+        "last_tick_formula": "law-dependent: (start + (n-1)*dur) + dur = start + n*dur needs associativity/distributivity; in IEEE the two differ by rounding "
+                             "(the oracle compares the implementation with the closed form at 4 ulp of the operand magnitude; the structural last_tick_form "
+                             "states the expression exactly as evaluated)",
         "ticks_fuel_suffices": "law-dependent: the while loop terminates within n turns when len < n*tickDist in exact arithmetic; in IEEE the loop can "
                                "stall when d + tickDist rounds to d (needs >= 2^52 turns, see Model/SliderEvents.lean)",
     }
